@@ -390,7 +390,9 @@ def run_kv(ctx, hb, env, rng, quick, stats, where_dist):
     for ic in image_cases:
         if ic["cont"]:
             r = rng.fork("cont" + ic["ops"][0][:200])
-            ref = K.RefMap(ic["now"])        # throw-away: only steers the generator's choice of clock targets
+            ref = K.RefMap(ic["now"])        # throw-away: steers the generator (clock targets; no multi-key prefix removal under a tiny
+            ref.m = dict(ic["img"]["old"].m)  # inline-compaction threshold, whose trace depends on the hash order): a superset of what can be recovered
+            ref.m.update(ic["img"]["new"].m)
             more = K.gen_more(r, r.range(1, 5), ref, ic["keys"], ic["cfgd"], allow_reopen=True)
             ic["ops"] = ic["ops"] + more + ["reopen", "read - %s" % " ".join(hexs(k) for k in ic["keys"] if len(k) <= 64), "state"]
     # ---- pass 2: every image reopened by the real store and by the model's load
